@@ -73,6 +73,12 @@ def _record(i):
             rec["model_case_error"] = f"{type(e).__name__}: {e}"
     if r == "unknown":
         rec["reason"] = getattr(ob, "reason", "")
+    if os.environ.get("PYVC_RECORD_CORES") and r == "proved" and ob.kind != "mustfail" and "core-hint" not in ob.backend \
+            and ob.seconds > float(os.environ.get("PYVC_CORE_MIN_SECONDS", "1.0")):
+        from .verify import find_core, core_key
+        core = find_core(ob)
+        if core is not None:
+            rec["core"] = {"key": core_key(ob), "hashes": core, "of": len(ob.hyps)}
     return i, rec
 
 
@@ -119,6 +125,11 @@ def prove_property(pid, tier="quick", log=print):
     report = {"property_id": pid, "tier": tier, "functions": [], "obligations": [], "lemmas": [],
               "undecided": [], "vacuity": [], "faults": [], "repo_root": loader.root}
     mods = [importlib.import_module(m) for m in contract_modules(pid)]
+    # core hints (see verify.py): selections among the current hypotheses, found once by tools/gen_cores.py
+    from . import verify as _verify
+    hint_file = os.path.join(os.path.dirname(os.path.dirname(os.path.abspath(__file__))), "pyvc_cores", f"{pid}.json")
+    _verify.CORE_HINTS = json.load(open(hint_file)) if os.path.exists(hint_file) and not os.environ.get("PYVC_NO_CORE_HINTS") else {}
+    report["core_hints_loaded"] = len(_verify.CORE_HINTS)
     by_target = {}
     for mod in mods:
         for c in getattr(mod, "CONTRACTS", []):
@@ -205,6 +216,22 @@ def prove_property(pid, tier="quick", log=print):
         # contract) is vacuous; if the function already fails real obligations the twin carries no information
         if o["result"] == "proved" and o["function"] not in refuted_fns:
             report["faults"].append({"function": o["function"], "error": f"must-fail twin {o['name']} was proved: prover unsound or contract vacuous"})
+    if os.environ.get("PYVC_RECORD_CORES"):
+        cores = {}
+        for o in obs:
+            c = o.pop("core", None)
+            if c:
+                cores.setdefault(c["key"], [])
+                if c["hashes"] not in cores[c["key"]]:
+                    cores[c["key"]].append(c["hashes"])
+        os.makedirs(os.path.dirname(hint_file), exist_ok=True)
+        old_c = json.load(open(hint_file)) if os.path.exists(hint_file) else {}
+        for k, v in cores.items():
+            for hlist in v:
+                if hlist not in old_c.setdefault(k, []):
+                    old_c[k].append(hlist)
+        json.dump(old_c, open(hint_file, "w"), indent=0)
+        report["cores_recorded"] = len(cores)
     report["summary"] = {
         "obligations": len(real), "discharged": sum(o["result"] == "proved" for o in real),
         "refuted": sum(o["result"] == "refuted" for o in real), "unknown": sum(o["result"] == "unknown" for o in real),
